@@ -271,6 +271,11 @@ pub fn build(quick: bool) -> Check {
     for d in 1..=(if quick { 4 } else { 5 }) {
         families.push(Box::new(SeqFamily { alpha: alpha.clone(), depth: d }));
     }
+    if !quick {
+        // one level deeper over a core of the alphabet (every third command)
+        let core: Vec<Vec<u8>> = alpha.iter().enumerate().filter(|(i, _)| i % 2 == 0).map(|x| x.1.clone()).collect();
+        families.push(Box::new(SeqFamily { alpha: core, depth: 6 }));
+    }
     families.push(Box::new(UseFamily { spellings: use_spellings() }));
     Check {
         id: "C02",
